@@ -74,6 +74,36 @@ Definition rs_relop (op : relop) (x y ux uy : Z) : Z :=
            end in
   if b then 1 else 0.
 
+(** sign extension of a [k]-bit pattern to an integer ([x as i8 as i32] etc.) *)
+Definition sext (k x : Z) : Z := let u := x mod 2 ^ k in if u <? 2 ^ (k - 1) then u else u - 2 ^ k.
+
+(** unary numeric opcodes on a source register [s]; the result is stored with [set_short]
+    (32-bit forms, and both eqz) or [set_long] (64-bit forms) *)
+Definition rs_unop32 (op : unop) (s : Z) : Z :=
+  match op with
+  | Clz => rs_leading_zeros 32 (as_u32 s)
+  | Ctz => rs_trailing_zeros 32 (as_u32 s)
+  | Popcnt => rs_count_ones (as_u32 s)
+  | Extend8S => sext 8 (as_i32 s)          (* x as i8 as i32 *)
+  | Extend16S => sext 16 (as_i32 s)
+  | Extend32S => as_i32 s                   (* no such opcode for i32 *)
+  end.
+Definition rs_unop64 (op : unop) (s : Z) : Z :=
+  match op with
+  | Clz => rs_leading_zeros 64 (as_u64 s)
+  | Ctz => rs_trailing_zeros 64 (as_u64 s)
+  | Popcnt => rs_count_ones (as_u64 s)
+  | Extend8S => sext 8 (as_i64 s)
+  | Extend16S => sext 16 (as_i64 s)
+  | Extend32S => sext 32 (as_i64 s)
+  end.
+Definition rs_eqz32 (s : Z) : Z := if as_i32 s =? 0 then 1 else 0.
+Definition rs_eqz64 (s : Z) : Z := if as_i64 s =? 0 then 1 else 0.
+(** conversions: wrap stores [source.long as i32] into [.short]; the extensions store
+    [source.short as i64] / [source.short as u32 as i64] into [.long] *)
+Definition rs_cvt (op : cvtop) (s : Z) : Z :=
+  match op with WrapI64 => as_i64 s | ExtendI32S => as_i32 s | ExtendI32U => as_u32 s end.
+
 (** ** Artifact and machine state *)
 Record artifact := {
   a_imports : list functype;                 (* f.ty() of each import *)
@@ -184,9 +214,6 @@ Definition do_store (c : code_map) (consts : list Z) (st : mstate) (pc : Z) (wid
   | None => STrap TMemory
   end.
 
-(** sign extension of a [k]-bit pattern to an integer *)
-Definition sext (k x : Z) : Z := let u := x mod 2 ^ k in if u <? 2 ^ (k - 1) then u else u - 2 ^ k.
-
 Definition unary (c : code_map) (consts : list Z) (st : mstate) (pc : Z) (f : Z -> Z -> Z) : step_res :=
   (* f source old_target = new target register *)
   let source := get_local consts st (get_i32 c pc) in
@@ -260,12 +287,8 @@ Definition call_function (c : code_map) (consts : list Z) (st : mstate) (pc : Z)
     | None => STrap TBadCode
     end.
 
-Definition step (st : mstate) : step_res :=
-  match nth_error codes (ms_idx st) with
-  | None => STrap TBadCode
-  | Some (c, consts) =>
-      let pc := ms_pc st + 1 in
-      let op := Z.to_N (byte_at c (ms_pc st)) in
+(** one instruction: [op] is the opcode byte, [pc] the position just after it *)
+Definition exec_op (c : code_map) (consts : list Z) (st : mstate) (pc : Z) (op : N) : step_res :=
       let gl := get_local consts st in
       let w32 (f : Z -> Z) := fun (src old : Z) => set_short old (f src) in
       let w64 (f : Z -> Z) := fun (src old : Z) => set_long old (f src) in
@@ -393,31 +416,36 @@ Definition step (st : mstate) : step_res :=
                      | None => st
                      end in
           SNext (set_pc (set_reg st1 t (set_short (reg st t) sz)) (pc + 8))
-      else if (op =? 34)%N then unary c consts st pc (w32 (fun s => if as_i32 s =? 0 then 1 else 0))
+      else if (op =? 34)%N then unary c consts st pc (w32 rs_eqz32)
       else if ((35 <=? op) && (op <=? 44))%N then
         match nth_error relops (N.to_nat (op - 35)) with Some o => rel32 o | None => STrap TBadCode end
-      else if (op =? 45)%N then unary c consts st pc (w32 (fun s => if as_i64 s =? 0 then 1 else 0))
+      else if (op =? 45)%N then unary c consts st pc (w32 rs_eqz64)
       else if ((46 <=? op) && (op <=? 55))%N then
         match nth_error relops (N.to_nat (op - 46)) with Some o => rel64 o | None => STrap TBadCode end
-      else if (op =? 56)%N then unary c consts st pc (w32 (fun s => rs_leading_zeros 32 (as_u32 s)))
-      else if (op =? 57)%N then unary c consts st pc (w32 (fun s => rs_trailing_zeros 32 (as_u32 s)))
-      else if (op =? 58)%N then unary c consts st pc (w32 (fun s => rs_count_ones (as_u32 s)))
+      else if (op =? 56)%N then unary c consts st pc (w32 (rs_unop32 Clz))
+      else if (op =? 57)%N then unary c consts st pc (w32 (rs_unop32 Ctz))
+      else if (op =? 58)%N then unary c consts st pc (w32 (rs_unop32 Popcnt))
       else if ((59 <=? op) && (op <=? 73))%N then
         match nth_error binops (N.to_nat (op - 59)) with Some o => bin32 o | None => STrap TBadCode end
-      else if (op =? 74)%N then unary c consts st pc (w64 (fun s => rs_leading_zeros 64 (as_u64 s)))
-      else if (op =? 75)%N then unary c consts st pc (w64 (fun s => rs_trailing_zeros 64 (as_u64 s)))
-      else if (op =? 76)%N then unary c consts st pc (w64 (fun s => rs_count_ones (as_u64 s)))
+      else if (op =? 74)%N then unary c consts st pc (w64 (rs_unop64 Clz))
+      else if (op =? 75)%N then unary c consts st pc (w64 (rs_unop64 Ctz))
+      else if (op =? 76)%N then unary c consts st pc (w64 (rs_unop64 Popcnt))
       else if ((77 <=? op) && (op <=? 91))%N then
         match nth_error binops (N.to_nat (op - 77)) with Some o => bin64 o | None => STrap TBadCode end
-      else if (op =? 92)%N then unary c consts st pc (w32 (fun s => as_i64 s))          (* source.long as i32 *)
-      else if (op =? 93)%N then unary c consts st pc (w64 (fun s => as_i32 s))          (* source.short as i64 *)
-      else if (op =? 94)%N then unary c consts st pc (w64 (fun s => as_u32 s))          (* as u32 as i64 *)
-      else if (op =? 95)%N then unary c consts st pc (w32 (fun s => sext 8 (as_i32 s)))
-      else if (op =? 96)%N then unary c consts st pc (w32 (fun s => sext 16 (as_i32 s)))
-      else if (op =? 97)%N then unary c consts st pc (w64 (fun s => sext 8 (as_i64 s)))
-      else if (op =? 98)%N then unary c consts st pc (w64 (fun s => sext 16 (as_i64 s)))
-      else if (op =? 99)%N then unary c consts st pc (w64 (fun s => sext 32 (as_i64 s)))
-      else STrap TBadCode
+      else if (op =? 92)%N then unary c consts st pc (w32 (rs_cvt WrapI64))          (* source.long as i32 *)
+      else if (op =? 93)%N then unary c consts st pc (w64 (rs_cvt ExtendI32S))          (* source.short as i64 *)
+      else if (op =? 94)%N then unary c consts st pc (w64 (rs_cvt ExtendI32U))          (* as u32 as i64 *)
+      else if (op =? 95)%N then unary c consts st pc (w32 (rs_unop32 Extend8S))
+      else if (op =? 96)%N then unary c consts st pc (w32 (rs_unop32 Extend16S))
+      else if (op =? 97)%N then unary c consts st pc (w64 (rs_unop64 Extend8S))
+      else if (op =? 98)%N then unary c consts st pc (w64 (rs_unop64 Extend16S))
+      else if (op =? 99)%N then unary c consts st pc (w64 (rs_unop64 Extend32S))
+      else STrap TBadCode.
+
+Definition step (st : mstate) : step_res :=
+  match nth_error codes (ms_idx st) with
+  | None => STrap TBadCode
+  | Some (c, consts) => exec_op c consts st (ms_pc st + 1) (Z.to_N (byte_at c (ms_pc st)))
   end.
 
 Fixpoint run_steps (fuel : nat) (st : mstate) : sum moutcome mstate :=
